@@ -4,7 +4,7 @@ from facts import Facts, fwalk, walk, walk_macro, callee, see_through
 from prim_escape import Escape, clean
 from build import AnalysisBroken
 from facts import path_of
-from prims import mname, is_call
+from prims import mname, is_call, as_assign
 from walk import Client, Engine
 
 LEVEL = 'other'
@@ -252,6 +252,11 @@ def run(src, tier, seed):
     import astshape
     astshape.shape_rule(fx, res, src)
     template_arity_rule(fx, res)
+    import lexrule
+    lexrule.lexer_rule(fx, res, src)
+    import parsefail
+    parsefail.parse_failure_rule(fx, res)
+    sort_arity_rule(fx, res)
     return res
 
 
@@ -577,7 +582,7 @@ def frontend_rules(fx, res):
 
     # ---- F3 pipe reader: input that ends inside a command is reported
     r = res.rule('pipe-eof-residue-reported', 'Interpret::interpPipe reports an error when the input ends while a command is still open (parenthesis counter above zero / inside a string or '
-                 'quoted symbol): after the read loop, or on the end-of-input path, the framing state is tested and the error reporter is called', floor=1)
+                 'quoted symbol) or while text outside any command is pending: after the read loop, or on the end-of-input path, the framing state is tested and the error reporter is called', floor=2)
     ip = fx.func('opensmt::Interpret::interpPipe')
     counters = {n['e']['n'] for n in walk(ip['body']) if n.get('k') == 'un' and n.get('op') in ('++', '--') and isinstance(n.get('e'), dict) and n['e'].get('k') == 'ref'}
     reported = False
@@ -594,6 +599,34 @@ def frontend_rules(fx, res):
     else:
         res.bad(r, 'pipe-eof-silent', fx.loc(ip), 'Interpret::interpPipe never tests the parenthesis counter for being above zero together with an error report: input that ends inside a command '
                 '(truncated script) is dropped silently with exit status 0, while file mode reports a syntax error')
+
+    # text outside any command (stray symbols, an unterminated string or quoted symbol) that is still pending at end of input
+    loops = [l for l in walk(ip['body']) if l.get('k') == 'loop' and any(is_call(x, 'read') for x in walk(l['body']))]
+    if len(loops) != 1:
+        raise AnalysisBroken('interpPipe: the read loop was not found')
+    inside = {id(x) for x in walk(loops[0])}
+    flags = set()
+    for n in walk(loops[0]['body']):
+        a = as_assign(n) if n.get('k') in ('bin', 'call') else None
+        if a and isinstance(see_through(a[1]), dict) and see_through(a[1]).get('v') is True and path_of(a[0]) and '.' not in path_of(a[0]):
+            # a Boolean local set to true under a condition that looks at the counter being zero and at the current character
+            for g in walk(loops[0]['body']):
+                if g.get('k') == 'if' and any(y is n for y in walk(g['then'])) and any(path_of(y.get('l')) in counters and see_through(y.get('r')).get('v') == 0 and y.get('op') == '=='
+                                                                                       for y in walk(g['cond']) if y.get('k') == 'bin'):
+                    flags.add(path_of(a[0]))
+    stray = False
+    for n in walk(ip['body']):
+        if n.get('k') == 'if' and not n.get('as') and id(n) not in inside:
+            mentions = {x['n'] for x in walk(n['cond']) if x.get('k') == 'ref'}
+            errs = any(x.get('k') == 'call' and callee(x).endswith('notify_formatted') and x.get('a') and see_through(x['a'][0]).get('v') is True for x in walk(n['then']))
+            if errs and mentions & flags:
+                stray = True
+    if stray:
+        res.ok(r, 'interpPipe reports text left outside any command at end of input (flag %s)' % sorted(flags))
+    else:
+        res.bad(r, 'pipe-eof-stray-text-silent', fx.loc(ip), 'Interpret::interpPipe keeps no record of text seen outside a command (a Boolean set where the parenthesis counter is zero) that is tested '
+                'together with an error report after the read loop: stray text, an unterminated string or quoted symbol after the last command is dropped silently with exit status 0, '
+                'while file mode reports a syntax error for the same bytes')
 
     # ---- F4 parser text may be absent
     r = res.rule('echo-null-text', 'a function that writes ASTNode::getValue() to std::cout tests the pointer: composite nodes have no text (the grammar builds them with NULL), and '
@@ -664,3 +697,40 @@ def template_arity_rule(fx, res):
             res.ok(r, 'argument of another sort: throws')
     except Unmodelled as e:
         raise AnalysisBroken('Logic::instantiateFunctionTemplate is outside the modelled subset: %s' % e)
+
+
+def sort_arity_rule(fx, res):
+    """Sort symbols are found by name (SStore::peek compares the name only); whoever turns a parsed sort expression into a sort has to compare the number of
+    arguments with the declared arity before building the sort."""
+    r = res.rule('sort-arity-compared', 'Interpret::sortFromASTNode builds a sort (Logic::getSort) only after the declared arity of the symbol it found by name has been compared with the number '
+                 'of arguments written', floor=2)
+    pk = fx.func('opensmt::SStore::peek')
+    by_name_only = not any(x.get('k') == 'mem' and x.get('n') == 'arity' for x in fwalk(pk))
+    f = fx.func('opensmt::Interpret::sortFromASTNode')
+    builds = [x for x in fwalk(f) if is_call(x, 'getSort') and not x.get('as')]
+    if not builds:
+        raise AnalysisBroken('sortFromASTNode no longer calls Logic::getSort (anchor)')
+    if not by_name_only:
+        for b in builds:
+            res.ok(r, 'SStore::peek compares the arity itself')
+        return
+    for blk in (b for b in walk(f['body']) if b.get('k') == 'seq'):
+        items = [x for x in blk.get('c') or [] if isinstance(x, dict)]
+        def ends(b_):
+            while isinstance(b_, dict) and b_.get('k') == 'seq':
+                c_ = [y for y in b_.get('c') or [] if isinstance(y, dict)]
+                b_ = c_[-1] if c_ else None
+            return isinstance(b_, dict) and b_.get('k') in ('ret', 'throw')
+        for idx, st in enumerate(items):
+            if any(p_.get('k') == 'if' and p_.get('else') is not None and ends(p_.get('then')) and ends(p_.get('else')) for p_ in items[:idx]):
+                break                  # both branches of an earlier if/else leave the function: what follows cannot be reached
+            here = [x for x in [st] + list(walk(st)) if isinstance(x, dict) and any(x is b for b in builds)]
+            if not here or st.get('k') in ('if', 'loop', 'seq'):
+                continue
+            guarded = any(p_.get('k') == 'if' and not p_.get('as') and any(y.get('k') == 'mem' and y.get('n') == 'arity' for y in walk(p_['cond'])) and
+                          any(y.get('k') == 'ret' for y in walk(p_['then'])) for p_ in items[:idx])
+            if guarded:
+                res.ok(r, '%s: getSort after a rejecting arity comparison' % fx.loc(f, st.get('ln')))
+            else:
+                res.bad(r, 'sort-arity-unchecked', fx.loc(f, st.get('ln')), 'Interpret::sortFromASTNode builds a sort from a symbol found by name without comparing the declared arity with the number of '
+                        'arguments written: after (declare-sort U 1) both `U` and `(U U U)` are accepted as sorts and the input problem is not reported')
